@@ -200,6 +200,11 @@ struct Ctx {
     count("violations_reported");
     emit(J().s("t", "viol").i("idx", idx).s("key", key).raw("detail", detailJson).str());
   }
+  // a named value of this case that must be equal in every stage of the same
+  // cross_stage_equal group (compared by the driver per case index)
+  void value(const std::string& name, const std::string& v) {
+    emit(J().s("t", "val").i("idx", idx).s("name", name).s("v", v).str());
+  }
   void inconclusive(const std::string& why) {
     emit(J().s("t", "inconclusive").s("why", why).str());
   }
@@ -276,7 +281,8 @@ int main(int argc, char** argv) {
     if (idx < c.start) continue;
     if (c.only >= 0 && idx != c.only) continue;
     c.idx = idx;
-    c.caseSeed = vh::mix2(c.seed, vh::mix2(vh::fnvs(c.stage), (uint64_t)idx));
+    // stages that must generate identical cases share a "seedgroup" param
+    c.caseSeed = vh::mix2(c.seed, vh::mix2(vh::fnvs(c.param("seedgroup", c.stage)), (uint64_t)idx));
     c.rng = vh::Rng(c.caseSeed);
     c.violationsThisCase = 0;
     c.emit(vh::J().s("t", "begin").i("idx", idx).str());
